@@ -271,7 +271,7 @@ fn gen_random(t: &mut Tape, tier: Tier) -> (Vec<SubHunk>, Cfg) {
     // painted as one sub-hunk (the buffers are flushed only when a line arrives while one of them holds
     // more than N), so every rule applies to it unchanged; runs are built at and just below that
     // boundary.  (Drawn from a fork so that the rest of the case does not move.)
-    let mut lb = t.fork(6);
+    let mut lb = t.fork(48);
     let buf: Option<usize> = if lb.chance(1, 5) { Some(lb.range(1, 6)) } else { None };
     if let Some(n) = buf {
         cfg.set("line-buffer-size", &n.to_string());
